@@ -11,7 +11,7 @@ import json
 import random
 
 from .. import vlib
-from ..eccrig import SECP, SMALL, Enc, h_add, h_G, h_mul, rec_point_result, retarget, scripted_rng
+from ..eccrig import SECP, SMALL, Enc, h_add, h_G, h_mul, rec_point_result, retarget, scripted_rng, retarget_applies, probe_group
 
 
 def _pt(v):
@@ -30,6 +30,8 @@ def _stage_ab(ctx):
         if len(rows) < 100:
             raise vlib.MachineryFailure(f"MC_EC_{cn}: only {len(rows)} rows emitted")
         n = 0
+        if not retarget_applies(c, probe_group, ctx, "ecmath.point_add / point_scalar_mul"):
+            continue
         with retarget(c):
             for row in rows:
                 if row[1] == "padd":
